@@ -7,8 +7,11 @@
 (***************************************************************************)
 EXTENDS Options
 
-cTable == ndJsonDeserialize("table.ndjson")
 RandomLists == ndJsonDeserialize("lists.ndjson")
+
+\* what the specification takes as documented (for the orchestration: drift report, chars of names)
+ASSUME PrintT("DOC " \o ToJson([names |-> Names, bools |-> BoolNames, on |-> DocOn,
+                                 helponly |-> HelpOnly, gone |-> DocNames \ TableNames]))
 
 Occ(n, bare, v) == [n |-> n, bare |-> bare, v |-> v, a |-> IF bare THEN n ELSE n \o "=" \o v,
                     ok |-> FALSE, p |-> "", r |-> ""]
@@ -83,9 +86,12 @@ UThoroughCli(x) == Pairs("cli", Names, Names, Settings2)
              \cup BadPairs("cli", Names, Neighbours, {"garbage"})
              \cup Random
 
-CONSTANT Tier
-UTier == CASE Tier = "quick" -> UQuick(0)
-           [] Tier = "thorough-backend" -> UThoroughBackend(0)
-           [] Tier = "thorough-cli" -> UThoroughCli(0)
-           [] Tier = "lists" -> Random
+BackendOnly(U) == {c \in U : c.level = "backend"}
+UOf(t) == CASE t = "quick" -> UQuick(0)
+            [] t = "quick-backend" -> BackendOnly(UQuick(0))
+            [] t = "small" -> Empty \cup Singles(GarbageQuick) \cup Random
+            [] t = "thorough-all-backend" -> BackendOnly(UThoroughBackend(0) \cup UThoroughCli(0))
+            [] t = "thorough-backend" -> UThoroughBackend(0)
+            [] t = "thorough-cli" -> UThoroughCli(0)
+            [] t = "lists" -> Random
 =============================================================================
